@@ -168,6 +168,13 @@ def sweep(tier="quick", seed=0, unsupported=()):
 
 
 def replay(contract, label, model, note=""):
+    if contract.startswith("RecordTensor."):
+        # the record setter contracts are shared with C13: its oracle drives the real setters against the list model
+        from . import c13
+
+        r13 = c13.replay(contract, label, model, note)
+        if r13 and r13.get("reproduced"):
+            return r13
     r = sweep("quick", 0)
     if r["failures"]:
         return {"reproduced": True, "failure": r["failures"][0], "concrete": r["failures"][0]["input"]}
